@@ -26,24 +26,29 @@ const qFactorWeightingKey = "q"
 
 // sortedMimes returns a list of mime sorted (desc) by its specified quality.
 // e.g. text/html,application/xhtml+xml,application/xml;q=0.9,image/webp,image/apng,*/*;q=0.8,application/signed-exchange;v=b3
+// Optional whitespace around "," ";" and "=" is ignored ; the q parameter is taken wherever it stands among the parameters.
 func sortedMimes(accept string) (sorted []mime) {
 	for _, each := range strings.Split(accept, ",") {
-		typeAndQuality := strings.Split(strings.Trim(each, " "), ";")
-		if len(typeAndQuality) == 1 {
-			sorted = insertMime(sorted, mime{typeAndQuality[0], 1.0})
-		} else {
-			// take factor
-			qAndWeight := strings.Split(typeAndQuality[1], "=")
-			if len(qAndWeight) == 2 && strings.Trim(qAndWeight[0], " ") == qFactorWeightingKey {
-				f, err := strconv.ParseFloat(qAndWeight[1], 64)
+		typeAndParameters := strings.Split(each, ";")
+		media := strings.Trim(typeAndParameters[0], " ")
+		quality, valid := 1.0, true
+		for _, parameter := range typeAndParameters[1:] {
+			keyAndValue := strings.SplitN(parameter, "=", 2)
+			if len(keyAndValue) == 2 && strings.Trim(keyAndValue[0], " ") == qFactorWeightingKey {
+				f, err := strconv.ParseFloat(strings.Trim(keyAndValue[1], " "), 64)
 				if err != nil {
-					traceLogger.Printf("unable to parse quality in %s, %v", each, err)
+					valid = false
+					if trace {
+						traceLogger.Printf("unable to parse quality in %s, %v", each, err)
+					}
 				} else {
-					sorted = insertMime(sorted, mime{typeAndQuality[0], f})
+					quality = f
 				}
-			} else {
-				sorted = insertMime(sorted, mime{typeAndQuality[0], 1.0})
+				break
 			}
+		}
+		if valid {
+			sorted = insertMime(sorted, mime{media, quality})
 		}
 	}
 	return
